@@ -24,11 +24,22 @@ impl<'tcx> Hx<'tcx> {
                 ("dk", s(format!("{:?}", kind).split(|c| c == '(' || c == ' ').next().unwrap_or("").to_string())),
             ]),
             Res::Local(id) => J::O(vec![("local", s(self.local_name(id)))]),
-            Res::SelfCtor(did) => J::O(vec![("selfctor", s(path_of(self.tcx, did)))]),
-            Res::SelfTyAlias { alias_to, .. } => J::O(vec![("selfty", s(path_of(self.tcx, alias_to)))]),
+            Res::SelfCtor(did) => J::O(vec![("selfctor", s(self.impl_self_adt(did)))]),
+            Res::SelfTyAlias { alias_to, .. } => J::O(vec![("selfty", s(self.impl_self_adt(alias_to)))]),
             Res::PrimTy(p) => J::O(vec![("prim", s(p.name_str()))]),
             other => J::O(vec![("res", s(format!("{:?}", other)))]),
         }
+    }
+
+    /// `Self` inside an impl: the path of the ADT the impl is for (falls back to the impl's own path)
+    fn impl_self_adt(&self, impl_did: rustc_hir::def_id::DefId) -> String {
+        if matches!(self.tcx.def_kind(impl_did), hir::def::DefKind::Impl { .. }) {
+            let ty = self.tcx.type_of(impl_did).instantiate_identity().skip_norm_wip();
+            if let ty::Adt(adt, _) = ty.kind() {
+                return path_of(self.tcx, adt.did());
+            }
+        }
+        path_of(self.tcx, impl_did)
     }
 
     /// user variables keep their name; compiler-generated bindings of a desugaring (e.g. the `lhs`
